@@ -429,7 +429,7 @@ var checks = map[string]Check{
 	},
 	"C19": {
 		Level:       "model_checking",
-		Rule:        "full product (4320 configurations) {call,push} x {method served by the backend, served nowhere} x caller codec {json,plain,protobuf} x 4 body byte strings x 5 request-metadata sets (duplicate key, real-ip present/absent) x 6 backend statuses x backend failure {none, before, during forwarding} on a live client -> proxy -> backend chain, compared with the same request sent directly to an identical backend (metamorphic oracle: body bytes, status triple, reply metadata one value per key, reply codec, backend invocation count and metadata view, real-ip injected iff absent, 502 on backend failure); plus every sequence of 4 (quick) / 6 calls and pushes with empty, short and long bodies through one proxy, each compared with the direct call and with what the backend received",
+		Rule:        "full product (4320 configurations) {call,push} x {method served by the backend, served nowhere} x caller codec {json,plain,protobuf} x 4 body byte strings x 5 request-metadata sets (duplicate key, real-ip present/absent) x 6 backend statuses x backend failure {none, before, during forwarding} on a live client -> proxy -> backend chain (all links over raw, and again over json, pb and thrift-binary), compared with the same request sent directly to an identical backend (metamorphic oracle: body bytes, status triple, reply metadata one value per key, reply codec, backend invocation count and metadata view, real-ip injected iff absent, 502 on backend failure); plus every sequence of 4 (quick) / 6 calls and pushes with empty, short and long bodies through one proxy, each compared with the direct call and with what the backend received",
 		Assumptions: append([]string{"backend statuses in the reserved connection-class range 100..199 are outside the alphabet (the plugin documents rewriting them to 502)", "quick tier: deterministic default schedule per configuration; thorough: all non-preemptive schedules within a time budget"}, baseAssumptions...),
 		Jobs: func(tier string) []Job {
 			j := sched("c19", "", 0, 8)
@@ -437,14 +437,23 @@ var checks = map[string]Check{
 			// every sequence of calls/pushes with empty, short and long bodies through one proxy (pooled contexts reused)
 			sq := sched("c19_seq", "depth=4", 0, 4)
 			sq.EnvOnly = true
+			js := []Job{j, sq}
+			// the same product and sequences with all three links over the json, pb and thrift-binary protocols
+			for _, pr := range []string{"json", "pb", "thrift"} {
+				pj := sched("c19", "proto="+pr, 0, 4)
+				pj.EnvOnly = true
+				ps := sched("c19_seq", "depth=4,proto="+pr, 0, 2)
+				ps.EnvOnly = true
+				js = append(js, pj, ps)
+			}
 			if tier == "thorough" {
 				k := sched("c19", "", 0, 16)
 				k.Budget = 900
-				sq.Params = "depth=6"
-				sq.Shards = 8
-				return []Job{j, sq, k}
+				js[1].Params = "depth=6"
+				js[1].Shards = 8
+				js = append(js, k)
 			}
-			return []Job{j, sq}
+			return js
 		},
 	},
 	"C13": {
